@@ -286,7 +286,7 @@ func runProperty(prop, tier, only string, seed, workers int, verbose, noReplay b
 			_ = vi
 			if v.Known != "" {
 				siteDone[site] = true
-				line := fmt.Sprintf("KNOWN-FINDING: property=%s %s: %s [%s @%s] replay=%s", prop, v.Known, knownWhat(known, v.Known), v.Msg, v.Pos, path)
+				line := fmt.Sprintf("KNOWN-FINDING: property=%s %s: %s [%s @%s] replay=%s", knownProp(known, v.Known, prop), v.Known, knownWhat(known, v.Known), v.Msg, v.Pos, path)
 				fmt.Println(line)
 				knownHit = append(knownHit, v.Known)
 				continue
@@ -319,6 +319,17 @@ func runProperty(prop, tier, only string, seed, workers int, verbose, noReplay b
 		return 2
 	}
 	return 0
+}
+
+// knownProp: the property a listed finding is recorded under (a harness registered under
+// several properties reports it with that id, not with the id of the run).
+func knownProp(ks []gosym.KnownFinding, id, dflt string) string {
+	for _, k := range ks {
+		if k.ID == id && k.Property != "" {
+			return k.Property
+		}
+	}
+	return dflt
 }
 
 func knownWhat(ks []gosym.KnownFinding, id string) string {
